@@ -23,12 +23,24 @@ def gen_case(rng, tier):
     c = gen_uni_case(rng, tier, min_mods=1)
     stages = list(c["dists"]) + ["nostage"]
     c["query_t"] = rng.choice(stages)
+    # T-stage keys need not be strings: a quarter of the cases uses the integers 0 / 1 (0 is falsy) with its own mapping
+    c["int_stages"] = rng.random() < 0.25
     return c
 
 
+STAGE_INT = {"early": 0, "late": 1, "nostage": 7}
+
+
 def impl_fn(case):
-    m = impl.build_uni(case)
-    m.load_patient_data(uni_table(case))
+    if case.get("int_stages"):
+        c2 = dict(case)
+        c2["dists"] = {STAGE_INT[t]: d for t, d in case["dists"].items()}
+        m = impl.build_uni(c2)
+        m.load_patient_data(uni_table(case), mapping=lambda raw: STAGE_INT[tmap(raw)])
+        case = {**case, "query_t": STAGE_INT[case["query_t"]]}
+    else:
+        m = impl.build_uni(case)
+        m.load_patient_data(uni_table(case))
     q0 = lambda mm: (mm.likelihood(), mm.diagnosis_matrix(case["query_t"]), mm.data_matrix(case["query_t"]))  # noqa: E731
     impl.run_primes(m, case, q0, [impl.prime_with_flipped_kinds, impl.prime_params, impl.prime_modality_order])
     out = {}
